@@ -2,6 +2,7 @@ import JsonPathVerif.Parser
 import JsonPathVerif.Validity
 import JsonPathVerif.KF
 import JsonPathVerif.OkB
+import JsonPathVerif.ParsedOk
 import JsonPathVerif.Regex
 import JsonPathVerif.Pointer
 import JsonPathVerif.Paths
@@ -133,6 +134,7 @@ def evalCase (line : String) : String :=
         ",\"multisel\":" ++ bstr (KF.multiSelOnMulti dummyEngine d segs [([], d)]) ++
         ",\"ast_agree\":" ++ bstr astAgree ++
         ",\"ok_hyp\":" ++ bstr (okSegsB segs) ++
+        ",\"parsed_hyp\":" ++ bstr (KF.escFreeSegs segs && shSegs segs) ++
         ",\"float_overflow\":" ++ bstr (!((Rfc.fSegs segs).litFloats.all f64Exact && (Rfc.fSegs segs).litInts.all i64Exact)) ++
         ",\"regex_unsupported\":" ++ bstr (reUnsupported || specUns) ++ "}"
       "{\"impl\":" ++ impl ++ ",\"spec\":" ++ spec ++ ",\"rfc\":\"" ++ verdictStr v ++ "\",\"flags\":" ++ flags ++ "}"
